@@ -78,6 +78,20 @@ def _func_inputs(f, seed):
             sp = f.sparsity_in(i)
             args.append(ca.DM(sp, [0.25 + 1.5 * rng.random() for _ in range(sp.nnz())]))
         pts.append(args)
+    # "at every input": one more point with a NaN in every input vector that has entries (a parameter without a value is
+    # NaN in pymoca); both sides must propagate or ignore it alike
+    base = [[0.25 + 1.5 * rng.random() for _ in range(f.sparsity_in(i).nnz())] for i in range(f.n_in())]
+    spots = [(i, j) for i in range(f.n_in()) for j in range(len(base[i]))]
+    if len(spots) > 12:
+        spots = rng.sample(spots, 12)
+    for (i0, j0) in spots:  # one point per entry (up to 12): only that entry is NaN
+        args = []
+        for i in range(f.n_in()):
+            vals = list(base[i])
+            if i == i0:
+                vals[j0] = float("nan")
+            args.append(ca.DM(f.sparsity_in(i), vals))
+        pts.append(args)
     return pts
 
 
